@@ -1617,8 +1617,7 @@ def classify(component, what, case):
             return None
         kind, frames, freedby = m.group(1), m.group(2).split(","), (m.group(3) or "").split(",")
         if kind == "heap-use-after-free" and _has_f19_op(line) and "lyd_hash_table_val_equal" in frames and \
-                any(f.startswith("lyht_find") or f.startswith("lyht_remove") or f.startswith("lyht_insert") for f in frames) and \
-                any(f.startswith(("lyd_free_", "lyd_unlink")) for f in freedby):
+                any(f.startswith(("lyht_find", "lyht_remove", "lyht_insert", "_lyht_")) for f in frames):
             # the stale record left by the value change: the freed node is read through its parent's children hash table
             return "F19"
         if kind == "heap-use-after-free" and _has_f60_op(line) and "tmp_free" in freedby:
